@@ -82,6 +82,7 @@ type api[K any] struct {
 	SetNx, SetX    func(K, int) bool
 	Remove, Get    func(K) (int, bool)
 	Clear          func()
+	Init           func() // re-initialise (same comparator)
 	Node           func(K) (key K, val int, nextKey K, hasNext, ok bool)
 	NodeSetValue   func(K, int) bool
 	Head           func() (K, int, bool)
@@ -94,7 +95,7 @@ type api[K any] struct {
 }
 
 func ordAPI[K interface{ ~int | ~string | ~float64 }](s *listz.SkipList[K, int]) api[K] {
-	return api[K]{list: s, Set: s.Set, SetNx: s.SetNx, SetX: s.SetX, Remove: s.Remove, Get: s.Get, Clear: s.Clear,
+	return api[K]{list: s, Set: s.Set, SetNx: s.SetNx, SetX: s.SetX, Remove: s.Remove, Get: s.Get, Clear: s.Clear, Init: s.Init,
 		Node: func(k K) (key K, val int, nk K, hn, ok bool) {
 			n := s.GetNode(k)
 			if n == nil {
@@ -126,8 +127,8 @@ func ordAPI[K interface{ ~int | ~string | ~float64 }](s *listz.SkipList[K, int])
 	}
 }
 
-func cmpAPI(s *listz.SkipListWithCmp[int, int]) api[int] {
-	return api[int]{list: s, Set: s.Set, SetNx: s.SetNx, SetX: s.SetX, Remove: s.Remove, Get: s.Get, Clear: s.Clear,
+func cmpAPI(s *listz.SkipListWithCmp[int, int], cmp func(a, b int) int) api[int] {
+	return api[int]{list: s, Init: func() { s.Init(cmp) }, Set: s.Set, SetNx: s.SetNx, SetX: s.SetX, Remove: s.Remove, Get: s.Get, Clear: s.Clear,
 		Node: func(k int) (key int, val int, nk int, hn, ok bool) {
 			n := s.GetNode(k)
 			if n == nil {
@@ -190,6 +191,7 @@ const (
 	opAll
 	opRangeStart
 	opRangeRange
+	opInit
 	nOps
 )
 
@@ -227,6 +229,8 @@ func genSkip(t *rapid.T) skipCase {
 		o := op{K: rapid.SampledFrom(weights).Draw(t, "op"), A: key.Draw(t, "a"), B: key.Draw(t, "b")}
 		if o.K == opClear && rapid.IntRange(0, 3).Draw(t, "rareClear") != 0 {
 			o.K = opRemove
+		} else if o.K == opClear && rapid.IntRange(0, 2).Draw(t, "initInstead") == 0 {
+			o.K = opInit
 		}
 		o.C = rapid.IntRange(-1, 6).Draw(t, "stop") // callback returns false at this index (-1: never)
 		c.Ops = append(c.Ops, o)
@@ -261,11 +265,13 @@ func runSkip(c skipCase, r *pb.Rec) error {
 			return drive(c, r, newOrd[float64](c.Start), func(i int) float64 { return floatKeys[i] }, func(a, b int) bool { return a < b }, rnd)
 		}
 	case 3:
-		s := listz.NewSkipListWithCmp[int, int](func(a, b int) int { return a - b })
-		return drive(c, r, cmpAPI(s), func(i int) int { return i }, func(a, b int) bool { return a < b }, rnd)
+		cmp := func(a, b int) int { return a - b }
+		s := listz.NewSkipListWithCmp[int, int](cmp)
+		return drive(c, r, cmpAPI(s, cmp), func(i int) int { return i }, func(a, b int) bool { return a < b }, rnd)
 	case 4:
-		s := listz.NewSkipListWithCmp[int, int](func(a, b int) int { return b - a })
-		return drive(c, r, cmpAPI(s), func(i int) int { return i }, func(a, b int) bool { return a > b }, rnd)
+		cmp := func(a, b int) int { return b - a }
+		s := listz.NewSkipListWithCmp[int, int](cmp)
+		return drive(c, r, cmpAPI(s, cmp), func(i int) int { return i }, func(a, b int) bool { return a > b }, rnd)
 	case 5:
 		if len(c.Perm) != c.N+2 {
 			return nil
@@ -278,7 +284,7 @@ func runSkip(c skipCase, r *pb.Rec) error {
 			seen[p] = true
 		}
 		rank := c.Perm
-		s := listz.NewSkipListWithCmp[int, int](func(a, b int) int {
+		cmp := func(a, b int) int {
 			switch {
 			case rank[a] < rank[b]:
 				return -7
@@ -286,8 +292,9 @@ func runSkip(c skipCase, r *pb.Rec) error {
 				return 3
 			}
 			return 0
-		})
-		return drive(c, r, cmpAPI(s), func(i int) int { return i }, func(a, b int) bool { return rank[a] < rank[b] }, rnd)
+		}
+		s := listz.NewSkipListWithCmp[int, int](cmp)
+		return drive(c, r, cmpAPI(s, cmp), func(i int) int { return i }, func(a, b int) bool { return rank[a] < rank[b] }, rnd)
 	}
 	return nil
 }
@@ -369,7 +376,7 @@ func drive[K comparable](c skipCase, r *pb.Rec, a api[K], keyOf func(int) K, les
 		fail := func(format string, args ...any) error {
 			return fmt.Errorf("step %d op %d(%v,%v): %s", step, o.K, ka, kb, fmt.Sprintf(format, args...))
 		}
-		if !wrote && o.K >= opGet {
+		if !wrote && o.K >= opGet && o.K != opInit {
 			r.ClassIf(c.Start == 1, "zero value read path")
 			r.ClassIf(c.Start == 2, "zero value after Clear read path")
 		}
@@ -417,6 +424,10 @@ func drive[K comparable](c skipCase, r *pb.Rec, a api[K], keyOf func(int) K, les
 			a.Clear()
 			model = map[int]int{}
 			r.ClassIf(wrote, "clear after writes")
+		case opInit:
+			a.Init()
+			model = map[int]int{}
+			r.ClassIf(wrote, "Init after writes")
 		case opGet:
 			v, ok := a.Get(ka)
 			if ok != present || (ok && v != model[o.A]) {
@@ -512,7 +523,7 @@ func drive[K comparable](c skipCase, r *pb.Rec, a api[K], keyOf func(int) K, les
 
 func init() {
 	pb.Register("ordered_map", pb.Options{Base: 8000,
-		Required: []string{"top level shrank", "zero value read path", "zero value after Clear read path", "clear then write", "level >= 4 reached"},
+		Required: []string{"Init after writes", "top level shrank", "zero value read path", "zero value after Clear read path", "clear then write", "level >= 4 reached"},
 		Rule:     "operation sequences (<= 60 steps, thorough <= 200) over Set/SetNx/SetX/Remove/Clear/Get/GetNode(+Key/Value/Next/SetValue)/Head/Len/Keys/Values/Range/All/RangeWithStart/RangeWithRange with early-stop callbacks, on SkipList[int|string|float64] started from NewSkipList / zero value / zero value after Clear and SkipListWithCmp under ascending, descending and permutation-rank comparators; dense key domains with outer neighbours; tower heights injected through the list's random source (part of the case); oracle: sorted-map model compared after every step; non-trivial = a present key removed after >= 3 inserts and a range query with an absent start key"},
 		genSkip, runSkip)
 }
